@@ -1541,15 +1541,19 @@ def details_stream(ctx) -> None:
             ctx.disagree("bad-repr case in which no details expression raised (generator bug)", case, None, None)
 
 
-def process_cases(ctx, cases: list, stream: str) -> None:
-    pend = []
-    for case in cases:
-        pend.append((case, run_case(ctx, case, stream)))
-    answers = lean_batch([p[1][0] for p in pend])
-    for (case, (req, impl, journals, wrs, n_entries, sig)), ans in zip(pend, answers):
-        check_model(ctx, case, req, impl, ans, sig)
-    for case, (req, impl, journals, wrs, n_entries, sig) in pend:
-        gc_check(ctx, case, journals, wrs, n_entries, sig)
+def process_cases(ctx, cases: list, stream: str, chunk: int = 40) -> None:
+    # in chunks: the journals of a chunk (entries with their stack traces) are dropped before the next
+    # one, which keeps memory and the cost of the gc.collect() in gc_check bounded
+    for at in range(0, len(cases), chunk):
+        pend = []
+        for case in cases[at : at + chunk]:
+            pend.append((case, run_case(ctx, case, stream)))
+        answers = lean_batch([p[1][0] for p in pend])
+        for (case, (req, impl, journals, wrs, n_entries, sig)), ans in zip(pend, answers):
+            check_model(ctx, case, req, impl, ans, sig)
+        for case, (req, impl, journals, wrs, n_entries, sig) in pend:
+            gc_check(ctx, case, journals, wrs, n_entries, sig)
+        del pend, answers
 
 
 def _shard(args):
